@@ -152,7 +152,10 @@ func judgeCase(rec *caseRecord, sum *jSummary) {
 	}
 	main := rec.Runs["main"]
 	if main == nil {
-		return
+		if rec.Validate == nil {
+			return
+		}
+		main = &runObs{Cmd: "none", Exit: 1, ErrLines: []string{"not run"}} // validate-only recording
 	}
 	sum.Cases++
 	if accepted(main) {
